@@ -295,7 +295,8 @@ def run_pipeline(ck, binp, cases, budget_s, case_ms=2500):
     skip, t0 = 0, time.time()
     while skip < len(cases) and time.time() - t0 < budget_s:
         env["VERIF_SKIP_TO"] = str(skip)
-        rc, log = vf.run_bin(binp, "^TestVerifC07Run$", env, cwd=sb, timeout=int(max(30, budget_s - (time.time() - t0) + 20)))
+        env["VERIF_BUDGET_S"] = str(int(max(5, budget_s - (time.time() - t0))))
+        rc, log = vf.run_bin(binp, "^TestVerifC07Run$", env, cwd=sb, timeout=int(budget_s + 240))
         started = -1
         for line in open(outp) if os.path.exists(outp) else []:
             f = line.split()
@@ -304,6 +305,8 @@ def run_pipeline(ck, binp, cases, budget_s, case_ms=2500):
             elif len(f) >= 3 and f[0] == "R":
                 results[int(f[1])] = (f[2], bytes.fromhex(f[3]).decode("utf8", "replace") if len(f) > 3 and f[3] != "-" else "")
         if started >= 0 and started not in results:
+            if "test timed out" in log:            # the harness's own time limit: not an observation about the case
+                break
             deaths.append((started, log[-3000:]))
             results[started] = ("died", "")
         nxt = (max(results) + 1) if results else len(cases)
@@ -483,7 +486,8 @@ def run(ck):
         op, sp, fp, arg, th, st = c
         m = "{| stack := [%s]; sp := %s; fp := %s |}" % ("; ".join(coq_val(x) for x in st), zc(sp), zc(fp))
         lab = (op, {"kernel": "vm-" + op, "case": [op, sp, fp, arg, th, st]})
-        if f[1] == "panic" and not (op == "S" and int(arg) < 0):
+        # StackCheck is proved panic free only inside its guard (operand >= 0, stack pointer within the slice)
+        if f[1] == "panic" and not (op == "S" and (int(arg) < 0 or sp > len(st))):
             kernel_panics.append(lab)
         if op == "P":
             cls = {"panic": 0, "under": 1, "ok": 2}[f[1]]
